@@ -287,6 +287,42 @@ def rule_agreement(k1: int, k2: int, d: str, sv: str, neg: bool, *, t: int, shap
     return verdict((r is Undefined) == (len(errs) > 0))
 
 
+def _float_text(form: int, m: int, e: int, neg: bool, eneg: bool):
+    sign = "-" if neg else ""
+    if form == 0:
+        return FloatValueNode(value=sign + str(m) + "e" + ("-" if eneg else "") + str(e))
+    if form == 1:
+        return FloatValueNode(value=sign + str(m) + "." + str(m) + "E" + ("-" if eneg else "+") + str(e))
+    return IntValueNode(value=sign + str(m) + "0" * e)
+
+
+def _float_literal(form, m, e, neg, eneg, t) -> bool:
+    ty = TYPES[t]
+    node = _float_text(form, m, e, neg, eneg)
+    try:
+        r = coerce_input_literal(node, ty)
+        errs = []
+        validate_input_literal(node, ty, lambda err, p: errs.append(err), None, None, True)
+        text = "{ f" + str(t) + "(x: " + print_ast(node) + ") }"
+        rule_errs = validate(ARG_SCHEMA, parse(text), [ValuesOfCorrectTypeRule])
+    except Exception:
+        return False
+    if (r is Undefined) != (len(errs) > 0) or (r is Undefined) != (len(rule_errs) > 0):
+        return False
+    return r is Undefined or conforms(ty, r)
+
+
+def float_literal_domain(mk: int, b: int, c: int, neg: bool, eneg: bool, *, t: int, form: int, a: int) -> bool:
+    """Numeric literals with large exponents / many digits: m e[+-]NNN, m.m E[+-]NNN, and Int
+    literals m 0...0 with up to 399 zeros.  Coercion, input validation and the literal rule agree,
+    and an accepted constant is a value of the type -- in particular a *finite* Float."""
+    from vf import concrete
+
+    m = [1, 5, 9][forked(mk, 0, 3)]
+    e = 100 * a + 10 * forked(b, 0, 10) + forked(c, 0, 10)
+    return verdict(concrete(_float_literal, form, m, e, True if neg else False, True if eneg else False, t))
+
+
 VAR_SCHEMA = GraphQLSchema(GraphQLObjectType("Query", {"f": GraphQLField(GraphQLString)}), types=[In, One, E])
 
 
@@ -341,6 +377,7 @@ BOUNDS = {
         "ValuesOfCorrectTypeRule vs constant coercion on the same literals (constants only)",
         "get_variable_values: one variable of each of the 14 types, 5 default forms, provided/absent",
         "E2 (harness.C16_numeric): numeric leaves for all doubles / 72-bit ints",
+        "numeric literal domain: Float literals m e[+-]NNN and m.m E[+-]NNN (m in 1,5,9; NNN 0..399), Int literals of 1..400 digits, against Float and Int",
     ],
     "thorough": ["as quick with all 14 shapes for every type and Int digits up to 3"],
 }
@@ -365,10 +402,19 @@ def obligations(tier):
                 obs.append(dict(fn="rule_agreement", cell=dict(t=t, shape=shape, dlen=dlen), budget_s=B, expect_confirm=not hard))
         for default in ((0, 1, 2, 3, 4) if th else (0,)):
             obs.append(dict(fn="variables_total", cell=dict(t=t, shape=shapes_for(t, False)[-1], default=default), budget_s=B, expect_confirm=not hard))
+    for t in (0, 2):
+        for form in (0, 1, 2):
+            for a in (0, 1, 2, 3):
+                obs.append(dict(fn="float_literal_domain", cell=dict(t=t, form=form, a=a), budget_s=600 if th else 60, expect_confirm=th))
     return obs
 
 
 def corpus():
+    for t in (0, 2):
+        for form in (0, 1, 2):
+            yield "float_literal_domain", dict(t=t, form=form, a=0), dict(mk=0, b=0, c=3, neg=False, eneg=False)
+            yield "float_literal_domain", dict(t=t, form=form, a=3), dict(mk=2, b=0, c=8, neg=True, eneg=False)
+            yield "float_literal_domain", dict(t=t, form=form, a=3), dict(mk=1, b=9, c=9, neg=False, eneg=True)
     base = dict(k1=3, k2=3, iv=1, fv=1.5, sv="A", bv=True)
     for t in range(len(TYPES)):
         for shape in range(N_SHAPES):
